@@ -2655,34 +2655,44 @@ pub(crate) fn pattern_matches(pattern: &[u8], text: &[u8]) -> bool {
                     continue;
                 }
                 b'[' => {
-                    if let Some(end) = pattern_chars[p_idx..].iter().position(|&c| c == b']') {
-                        let class_end = p_idx + end;
-                        let negate = p_idx + 1 < class_end && pattern_chars[p_idx + 1] == b'^';
-                        let start_idx = if negate { p_idx + 2 } else { p_idx + 1 };
-                        
-                        let mut matched = false;
-                        let mut i = start_idx;
-                        while i < class_end {
-                            if i + 2 < class_end && pattern_chars[i + 1] == b'-' {
-                                if text_chars[t_idx] >= pattern_chars[i] && text_chars[t_idx] <= pattern_chars[i + 2] {
-                                    matched = true;
-                                    break;
-                                }
-                                i += 3;
-                            } else {
-                                if text_chars[t_idx] == pattern_chars[i] {
-                                    matched = true;
-                                    break;
-                                }
-                                i += 1;
+                    // A class ends at the first ']' that is not escaped; inside it "\x" is the
+                    // literal x, "a-b" a range (in either order), a leading '^' negates
+                    let mut i = p_idx + 1;
+                    let negate = i < pattern_chars.len() && pattern_chars[i] == b'^';
+                    if negate {
+                        i += 1;
+                    }
+                    let c = text_chars[t_idx];
+                    let mut matched = false;
+                    let mut closed = false;
+                    while i < pattern_chars.len() {
+                        if pattern_chars[i] == b'\\' && i + 1 < pattern_chars.len() {
+                            i += 1;
+                            if pattern_chars[i] == c {
+                                matched = true;
                             }
+                        } else if pattern_chars[i] == b']' {
+                            closed = true;
+                            break;
+                        } else if i + 2 < pattern_chars.len() && pattern_chars[i + 1] == b'-' {
+                            let (mut lo, mut hi) = (pattern_chars[i], pattern_chars[i + 2]);
+                            if lo > hi {
+                                std::mem::swap(&mut lo, &mut hi);
+                            }
+                            if c >= lo && c <= hi {
+                                matched = true;
+                            }
+                            i += 2;
+                        } else if pattern_chars[i] == c {
+                            matched = true;
                         }
-                        
-                        if matched != negate {
-                            p_idx = class_end + 1;
-                            t_idx += 1;
-                            continue;
-                        }
+                        i += 1;
+                    }
+                    
+                    if matched != negate {
+                        p_idx = if closed { i + 1 } else { pattern_chars.len() };
+                        t_idx += 1;
+                        continue;
                     }
                 }
                 b'\\' if p_idx + 1 < pattern_chars.len() => {
